@@ -32,7 +32,95 @@ def _c10_stats(cases, impl):
     return dict(d)
 
 
+def _lay_keys_only(out):
+    # implementation trace "@t Kkeys [cp|cr] ... D digest" -> key-list changes only
+    if out.startswith(('rej', 'crash', 'unsupported')):
+        return out
+    items = out.split(' ')
+    res = []
+    prev = '-'
+    i = 0
+    while i < len(items):
+        it = items[i]
+        if it == 'D':
+            break
+        if it.startswith('@') and i + 1 < len(items):
+            k = items[i + 1]
+            if k != 'K' + prev:
+                res.append(it + ' ' + k)
+                prev = k[1:]
+            i += 2
+            continue
+        i += 1
+    return ' '.join(res) if res else '-'
+
+
+def _hex_cfg(case):
+    try:
+        return bytes.fromhex(case.split()[2]).decode()
+    except Exception:
+        return ''
+
+
+def _lay_describe(case):
+    t = case.split()
+    try:
+        return {'config': _hex_cfg(case), 'history': ' '.join(t[3:])}
+    except Exception:
+        return case
+
+
+def _lay_shrink(case):
+    # drop one history event at a time (keeps the count field right)
+    t = case.split()
+    try:
+        hi = t.index('HIST')
+    except ValueError:
+        return
+    head = t[:hi]
+    n = int(t[hi + 1])
+    evs = []
+    i = hi + 2
+    while i < len(t):
+        if t[i] in ('p', 'r'):
+            evs.append(t[i:i + 3]); i += 3
+        else:
+            evs.append(t[i:i + 2]); i += 2
+    for k in range(len(evs)):
+        e2 = evs[:k] + evs[k + 1:]
+        yield ' '.join(head + ['HIST', str(len(e2))] + [x for e in e2 for x in e])
+    for k in range(len(evs)):
+        if evs[k][0] == 't' and int(evs[k][1]) > 1:
+            e2 = evs[:k] + [['t', str(int(evs[k][1]) // 2)]] + evs[k + 1:]
+            yield ' '.join(head + ['HIST', str(len(e2))] + [x for e in e2 for x in e])
+
+
+def _lay_stats(cases, impl):
+    import collections
+    d = collections.Counter()
+    for c, i in zip(cases, impl):
+        d['rejected_by_parser' if i.startswith('rej') else 'crash' if i.startswith('crash') else 'ran'] += 1
+        n = int(c.split()[c.split().index('HIST') + 1])
+        d['hist_1_5' if n <= 5 else 'hist_6_20' if n <= 20 else 'hist_21_plus'] += 1
+        if ' K' in i and i.count('@') >= 2:
+            d['output_changed_at_least_twice'] += 1
+    return dict(d)
+
+
 PROPS = {
+    'C04': {
+        'lean_modules': ['KVerif.Props.C04'],
+        'expand': True,
+        'oracle_project': _lay_keys_only,
+        'nontrivial': lambda case, impl: impl.count('@') >= 2,
+        'rule': 'exhaustive physically consistent histories (<= N events over 3 keys, gaps {0,1,2}) on 8 fixed layered configs, plus random configs from the C04 fragment (1-4 layers, 2-6 keys, all option combinations) with random histories incl. bursts > 32 events and a few impossible events; non-trivial = the output key list changed at least twice; distinct = distinct case line',
+        'stats': _lay_stats,
+        'describe': _lay_describe,
+        'shrink_candidates': _lay_shrink,
+        'trusted_base': ['Model/Layout.lean as a transcription of keyberon/src/layout.rs (checked differentially per tick incl. a digest of the private state through hook verif_digest)',
+                         'the harness serialiser of the parsed configuration (harness/src/ser.rs, lay.rs)'],
+        'assumptions': ['OS output is taken as the key-code list of the layout per tick (the kanata diffing layer is modelled in Model/Kanata.lean and checked by C01/C14)'],
+    },
     'C10': {
         'lean_modules': ['KVerif.Props.C10'],
         'oracle_project': _c10_fire,
